@@ -48,7 +48,7 @@ func (E *Engine) buildVCs(key string) (res *FuncResult) {
 			case specErr:
 				res.Err = "spec error: " + e.msg
 			default:
-				panic(r)
+				res.Err = fmt.Sprintf("engine error: %v", r)
 			}
 		}
 		res.Obls = fx.obls
